@@ -85,7 +85,25 @@ func runC47(c *Ctx) {
 		w := f.MustPrecede(func(n ast.Node) bool { _, ok := n.(*ast.SwitchStmt); return ok }, nil, storeState)
 		_ = w
 		c.Check(okOpen, "open: deadline≺state", "a transition to Open stores the re-probe deadline (in the switch that precedes the state store)", c.P.Pos(tr.Decl.Pos()), "")
-		c.Check(okReset && n2 == 2, "halfopen/closed: window-reset", "a transition to HalfOpen or Closed resets the failure window", c.P.Pos(tr.Decl.Pos()), "")
+		_, _ = okReset, n2
+		for _, st := range []string{"HalfOpen", "Closed"} {
+			st := st
+			into := f.FactEdges(func(cm cmp) bool {
+				k, isK := objOfConst(info, cm.R)
+				o := objOf(info, cm.L)
+				return cm.Op == token.EQL && isK && k.Name() == st && o != nil && o.Name() == "target"
+			})
+			reset := func(n ast.Node) bool {
+				call, ok := n.(*ast.CallExpr)
+				if !ok {
+					return false
+				}
+				cal := callee(info, call)
+				return cal != nil && cal.Name() == "reset"
+			}
+			w := f.search(searchSpec{startEdges: edgeList(into), avoid: reset, target: storeState})
+			c.Check(w == nil && len(into) > 0, "window-reset/"+st, "a transition to HalfOpen or Closed resets the failure window before the new state is published", c.P.Pos(tr.Decl.Pos()), f.describe(w))
+		}
 		same := f.EdgesWhere(func(cond ast.Expr) (bool, bool) {
 			cm, ok := asCmp(cond, true)
 			if ok && cm.Op == token.EQL {
@@ -99,6 +117,45 @@ func runC47(c *Ctx) {
 		c.Check(w == nil && len(same) > 0, "noop-transition", "a transition to the current state changes nothing (the open deadline is not pushed back by repeated failures)", c.P.Pos(tr.Decl.Pos()), f.describe(w))
 		c.WhoMayCall("who", tr.Obj, map[string]string{"breaker.(*CircuitBreaker).toOpen": "", "breaker.(*CircuitBreaker).toHalfOpen": "", "breaker.(*CircuitBreaker).toClosed": ""})
 		c.LockPairing(tr, mu)
+	})
+
+	c.Rule("semaphore", func() {
+		sem := c.Field("breaker", "CircuitBreaker", "semCh")
+		nSend, nRecv := 0, 0
+		for _, u := range c.UsesOf(sem) {
+			if u.Sel == nil || len(u.Path) < 2 {
+				continue
+			}
+			par := u.Path[len(u.Path)-2]
+			inComm := false
+			for _, p := range u.Path {
+				if _, ok := p.(*ast.CommClause); ok {
+					inComm = true
+				}
+			}
+			switch x := par.(type) {
+			case *ast.SendStmt:
+				if x.Chan == ast.Expr(u.Sel) {
+					nSend++
+					c.Check(funcName(u.EnclObj) == "breaker.(*CircuitBreaker).tryAcquire" && inComm, "acquire@"+u.EnclName(), "a probe permit is taken only in tryAcquire, without blocking", u.Where(c.P), "permit taken elsewhere or with a blocking send")
+				}
+			case *ast.UnaryExpr:
+				if x.Op == token.ARROW {
+					nRecv++
+					c.Check(funcName(u.EnclObj) == "breaker.(*CircuitBreaker).release" && !inComm, "release@"+u.EnclName(), "a permit is given back only by release, by an unconditional receive: the semaphore counts exactly the probes in flight", u.Where(c.P),
+						"permits are removed in "+u.EnclName()+map[bool]string{true: " by a non-blocking receive (a release that may do nothing, or a drain, breaks the count of in-flight probes)", false: ""}[inComm])
+				}
+			}
+		}
+		c.Check(nSend == 1 && nRecv == 1, "one-acquire-one-release-site", "one acquire site and one release site", "-", "sends: "+itoa(nSend)+", receives: "+itoa(nRecv))
+		rel := c.Func("breaker", "CircuitBreaker.release")
+		rf := c.NewFlow(rel)
+		recv := func(n ast.Node) bool {
+			ue, ok := n.(*ast.UnaryExpr)
+			return ok && ue.Op == token.ARROW && selField(rf.Info, ue.X) == sem
+		}
+		w := rf.search(searchSpec{avoid: recv, exits: true})
+		c.Check(w == nil, "release⇒permit-returned", "every release gives exactly its permit back", c.P.Pos(rel.Decl.Pos()), rf.describe(w))
 	})
 
 	c.Rule("admission", func() {
